@@ -1,18 +1,1159 @@
-//! C12 — (stub, under construction)
+//! C12 — instancing a variable font evaluates the OpenType variation model.
+//!
+//! Workload: generated variable TrueType fonts (AST in `c12_gen`, written by the harness's own
+//! fvar/avar/gvar/HVAR/MVAR writers with random encoding choices) and the real variable fonts of
+//! the fixture corpus (lifted into the same AST by the independent reader in `c12_model`).
+//! Oracle: `variations::instance` output, read back with the independent sfnt/glyf/hmtx readers,
+//! against the reference model (region scalars, IUP, phantom points, composite offsets, HVAR,
+//! MVAR) within one font unit; exact identity at the default tuple; static-ness of the output.
 
+#[path = "c12_gen.rs"]
+pub mod c12_gen;
+#[path = "c12_model.rs"]
+pub mod c12_model;
+#[path = "c12_cff2.rs"]
+pub mod c12_cff2;
+
+use self::c12_cff2 as cff2;
+use self::c12_gen::*;
+use self::c12_model as model;
 use super::Prop;
 use crate::rt::*;
+use crate::sfnt::glyf::{Args, Glyph};
+use crate::sfnt::{self, be16};
+use allsorts::binary::read::ReadScope;
+use allsorts::font_data::FontData;
+use allsorts::tables::Fixed;
+use allsorts::variations;
 
-pub struct C12 {}
+struct RealFont {
+    name: String,
+    bytes: Vec<u8>,
+    vf: Option<VFont>,
+    cff2: bool,
+    /// CFF2 fixture whose CharStrings use no subroutines: lifted into the AST as well
+    cff: Option<cff2::Cff2>,
+}
+
+pub struct C12 {
+    real: Vec<RealFont>,
+}
+
+const VAR_TAGS: &[&str] = &["fvar", "avar", "gvar", "cvar", "HVAR", "VVAR", "MVAR"];
 
 impl C12 {
     pub fn new(_cx: &mut Ctx) -> C12 {
-        C12 {}
+        let mut real = Vec::new();
+        for sf in load_seed_fonts(4 << 20, false) {
+            let f = match sfnt::Font::parse(&sf.data) {
+                Some(f) => f,
+                None => continue,
+            };
+            if f.gets("fvar").is_none() {
+                continue;
+            }
+            let cff2 = f.gets("CFF2").is_some();
+            let mut vf = if f.gets("gvar").is_some() && f.gets("glyf").is_some() { model::read_vfont(&sf.data) } else { None };
+            if vf.is_none() && !cff2 {
+                continue;
+            }
+            let mut cff = None;
+            if cff2 {
+                if let Some((v, c)) = lift_cff2(&f) {
+                    vf = Some(v);
+                    cff = Some(c);
+                }
+            }
+            real.push(RealFont { name: sf.name.clone(), bytes: sf.data.clone(), vf, cff2, cff });
+        }
+        real.sort_by(|a, b| a.name.cmp(&b.name));
+        C12 { real }
+    }
+}
+
+/// Lift a real CFF2 variable font into the AST (only when its CharStrings are free of subroutine calls).
+fn lift_cff2(f: &sfnt::Font) -> Option<(VFont, cff2::Cff2)> {
+    let r = cff2::read_cff2(f.gets("CFF2")?)?;
+    if r.fd_count != 1 || !r.has_vstore {
+        return None;
+    }
+    let mut c = cff2::Cff2 { regions: r.regions.clone(), data_regions: r.data_regions.clone(), private_vsindex: r.private_vsindex, glyphs: Vec::new() };
+    for cs in &r.charstrings {
+        let g = cff2::read_charstring_subrs(cs, r.private_vsindex.unwrap_or(0), &|v| r.data_regions.get(v as usize).map(|x| x.len()), &r.subrs)?;
+        c.glyphs.push(g);
+    }
+    let n = c.glyphs.len();
+    let mut vf = VFont::default();
+    vf.axes = model::read_fvar(f.gets("fvar")?)?;
+    vf.avar = match f.gets("avar") {
+        Some(d) => Some(model::read_avar(d)?),
+        None => None,
+    };
+    vf.glyphs = vec![Glyph::Empty; n];
+    vf.gvar = vec![None; n];
+    vf.metrics = model::read_metrics(f, n)?;
+    vf.hvar = match f.gets("HVAR") {
+        Some(d) => Some(model::read_hvar(d)?),
+        None => None,
+    };
+    vf.mvar = match f.gets("MVAR") {
+        Some(d) => Some(model::read_mvar(d)?),
+        None => None,
+    };
+    vf.base = model::read_base_metrics(f);
+    Some((vf, c))
+}
+
+/// What the judge needs besides the AST.
+struct Subject<'a> {
+    vf: &'a VFont,
+    bytes: &'a [u8],
+    label: &'a str,
+    /// [glyph][tuple] encoding classes of the generated gvar (empty for real fonts)
+    enc: Option<&'a Vec<Vec<Vec<&'static str>>>>,
+    generated: bool,
+    /// CFF2 flavour: the abstract CharStrings (the glyphs of `vf` are all Empty then)
+    cff: Option<&'a cff2::Cff2>,
+}
+
+fn r14(v: i16) -> f64 {
+    v as f64 / 16384.0
+}
+
+fn witness(sub: &Subject<'_>, user: &[i32], tuple: &[i16], what: String, extra: Vec<(&str, J)>) -> J {
+    let mut v = vec![
+        ("what", J::s(what)),
+        ("font", J::s(sub.label)),
+        ("user_16_16", J::A(user.iter().map(|&u| J::I(u as i64)).collect())),
+        ("user", J::A(user.iter().map(|&u| J::F(u as f64 / 65536.0)).collect())),
+        ("normalised_f2dot14", J::A(tuple.iter().map(|&t| J::I(t as i64)).collect())),
+        ("normalised", J::A(tuple.iter().map(|&t| J::F(r14(t))).collect())),
+        ("axes", J::s(format!("{:?}", sub.vf.axes))),
+    ];
+    v.extend(extra);
+    if sub.generated {
+        v.push(("font_bytes", J::hex(&sub.bytes[..sub.bytes.len().min(6000)])));
+    }
+    J::obj(v)
+}
+
+/// Interesting normalised values (raw F2Dot14) of axis `a`: region corners and their neighbours.
+fn knots(vf: &VFont, a: usize) -> Vec<i16> {
+    let mut k: Vec<i32> = vec![0, 16384, -16384];
+    let mut add = |r: &Reg| {
+        if let Some(&(s, p, e)) = r.get(a) {
+            for v in [s, p, e] {
+                k.push(v as i32);
+            }
+        }
+    };
+    for gv in vf.gvar.iter().flatten() {
+        for t in &gv.tuples {
+            add(&t.region());
+        }
+    }
+    if let Some(h) = &vf.hvar {
+        for r in &h.ivs.regions {
+            add(r);
+        }
+    }
+    if let Some(ivs) = vf.mvar.as_ref().and_then(|m| m.ivs.as_ref()) {
+        for r in &ivs.regions {
+            add(r);
+        }
+    }
+    k.sort();
+    k.dedup();
+    k.into_iter().map(|v| v.clamp(-16384, 16384) as i16).collect()
+}
+
+fn gen_user_tuple(rng: &mut Rng, vf: &VFont, strategy: usize, cx: &mut Ctx) -> Vec<i32> {
+    let na = vf.axes.len();
+    let focus = rng.below(na.max(1));
+    (0..na)
+        .map(|a| {
+            let ax = &vf.axes[a];
+            let map = vf.avar.as_ref().and_then(|m| m.get(a));
+            let target = |rng: &mut Rng, t: i32| -> i32 { model::user_for_target(ax, map, (t + *rng.pick(&[0, 0, 0, 1, -1])).clamp(-16384, 16384) as i16) };
+            match strategy {
+                0 => ax.def,
+                1 => {
+                    // one axis at an interesting place, the others at their default
+                    if a == focus {
+                        let k = knots(vf, a);
+                        let t = *rng.pick(&k) as i32;
+                        target(rng, t)
+                    } else {
+                        ax.def
+                    }
+                }
+                2 => {
+                    // every axis at a region corner (+-1)
+                    let k = knots(vf, a);
+                    let t = *rng.pick(&k) as i32;
+                    target(rng, t)
+                }
+                3 => *rng.pick(&[ax.min, ax.max, ax.def]),
+                4 => {
+                    // outside the axis range on at least the focus axis
+                    if a == focus || rng.bool() {
+                        cx.class("coords:out-of-range-user-value");
+                        if rng.bool() {
+                            ax.min.saturating_sub(1 + rng.below(1 << 20) as i32)
+                        } else {
+                            ax.max.saturating_add(1 + rng.below(1 << 20) as i32)
+                        }
+                    } else {
+                        rng.range(ax.min as i64, ax.max as i64) as i32
+                    }
+                }
+                _ => {
+                    if rng.chance(1, 4) {
+                        {
+                            let t = rng.range(-16384, 16384) as i32;
+                            target(rng, t)
+                        }
+                    } else {
+                        rng.range(ax.min as i64, ax.max as i64) as i32
+                    }
+                }
+            }
+        })
+        .collect()
+}
+
+fn tol_scalar() -> f64 {
+    1.0 + 1e-3
+}
+/// quantities that are a difference of two independently rounded values
+fn tol_derived() -> f64 {
+    1.0 + 1e-2
+}
+
+/// Judge one instance. Returns true when something non-trivial (a non-zero expected delta) was compared.
+fn judge(cx: &mut Ctx, sub: &Subject<'_>, user: &[i32], out: &[u8], tuple: &[i16]) -> bool {
+    let vf = sub.vf;
+    let na = vf.axes.len();
+    // ---- normalised coordinates: the returned tuple must be within the C13 tolerance of the exact value
+    if tuple.len() != na {
+        cx.violation("instance-tuple", "tuple-length", witness(sub, user, tuple, format!("returned tuple has {} values for {} axes", tuple.len(), na), vec![]));
+        return false;
+    }
+    for a in 0..na {
+        let (exact, slope) = model::normalise(&vf.axes[a], vf.avar.as_ref().and_then(|m| m.get(a)), user[a]);
+        let tol = slope.max(1.0) + 1e-6;
+        if (tuple[a] as f64 - exact).abs() > tol {
+            cx.violation("instance-tuple", "normalised-coordinate-off", witness(sub, user, tuple, format!("axis {}: returned {} but exact normalisation is {:.4} (tolerance {:.3})", a, tuple[a], exact, tol), vec![]));
+            return false;
+        }
+        cx.class(if (tuple[a] as f64 - exact).abs() <= 0.5 + 1e-9 { "norm:nearest" } else { "norm:within-tolerance" });
+        if user[a] < vf.axes[a].min || user[a] > vf.axes[a].max {
+            cx.class("coords:clamped");
+        }
+    }
+    let coords = tuple;
+    // ---- static-ness
+    let of = match sfnt::Font::parse(out) {
+        Some(f) => f,
+        None => {
+            cx.violation("static", "output-not-sfnt", witness(sub, user, tuple, "instance output is not a readable sfnt".into(), vec![("output", J::hex(&out[..out.len().min(400)]))]));
+            return false;
+        }
+    };
+    for t in VAR_TAGS {
+        if of.gets(t).is_some() {
+            cx.violation("static", &format!("variation-table-left:{}", t), witness(sub, user, tuple, format!("instance output still has a '{}' table", t), vec![]));
+        }
+    }
+    match ReadScope::new(out).read::<FontData<'_>>().ok().and_then(|fd| fd.table_provider(0).ok()) {
+        Some(p) => match allsorts::Font::new(p) {
+            Ok(font) => {
+                if font.is_variable() {
+                    cx.violation("static", "still-variable", witness(sub, user, tuple, "Font::new(instance).is_variable() is true".into(), vec![]));
+                }
+                cx.class("static:loadable-non-variable");
+            }
+            Err(e) => {
+                cx.violation("static", "output-not-loadable", witness(sub, user, tuple, format!("Font::new on the instance failed: {:?}", e), vec![]));
+            }
+        },
+        None => {
+            cx.violation("static", "output-not-loadable", witness(sub, user, tuple, "FontData/table_provider failed on the instance".into(), vec![]));
+        }
+    }
+    // ---- read the output back (independent readers)
+    let n = vf.glyphs.len();
+    let og = match if sub.cff.is_some() { Some(vec![Glyph::Empty; n]) } else { model::read_glyphs(&of) } {
+        Some(g) if g.len() == n => g,
+        other => {
+            cx.violation("output", "glyf-unreadable", witness(sub, user, tuple, format!("output glyf/loca unreadable or glyph count changed ({:?} glyphs, expected {})", other.map(|g| g.len()), n), vec![]));
+            return false;
+        }
+    };
+    let om = match model::read_metrics(&of, n) {
+        Some(m) => m,
+        None => {
+            cx.violation("output", "hmtx-unreadable", witness(sub, user, tuple, "output hmtx/hhea unreadable".into(), vec![]));
+            return false;
+        }
+    };
+    let mut nontrivial = false;
+    let mut any_applied = false;
+    for gid in 0..n {
+        let glyph = &vf.glyphs[gid];
+        let np = glyph_num_points(glyph);
+        let gv = vf.gvar[gid].as_ref();
+        let gd = match gv {
+            Some(gv) => match model::glyph_deltas(glyph, gv, coords) {
+                Some(d) => Some(d),
+                None => {
+                    cx.class("not-judged:glyph-variation-data-outside-core");
+                    continue;
+                }
+            },
+            None => None,
+        };
+        let zero = vec![(0.0f64, 0.0f64); np + 4];
+        let total: &Vec<(f64, f64)> = gd.as_ref().map_or(&zero, |d| &d.total);
+        let applied = gd.as_ref().map_or(false, |d| d.scalars.iter().any(|&s| s != 0.0));
+        let all_zero_scalars = !applied;
+        any_applied |= applied;
+        let invalid_here = gv.map_or(false, |g| g.tuples.iter().any(|t| region_is_invalid(&t.region())));
+        let inferred = gd.as_ref().map_or(false, |d| d.iup_classes.iter().any(|c| c.starts_with("iup:") && !c.starts_with("iup:contour-")));
+        let cause = if invalid_here {
+            "invalid-region"
+        } else if inferred {
+            "iup"
+        } else {
+            "explicit"
+        };
+        let gw = |what: String, extra: Vec<(&str, J)>| -> J {
+            let mut e = vec![
+                ("glyph_id", J::U(gid as u64)),
+                ("glyph", J::s(format!("{:?}", glyph).chars().take(1500).collect::<String>())),
+                ("variation_data", J::s(format!("{:?}", gv).chars().take(2500).collect::<String>())),
+                ("scalars", J::A(gd.as_ref().map_or(vec![], |d| d.scalars.iter().map(|&s| J::F(s)).collect()))),
+            ];
+            e.extend(extra);
+            witness(sub, user, tuple, what, e)
+        };
+        // ---- outline
+        match (glyph, &og[gid]) {
+            (Glyph::Empty, Glyph::Empty) => {}
+            (Glyph::Simple(s), Glyph::Simple(o)) => {
+                let same_shape = s.contours.len() == o.contours.len() && s.contours.iter().zip(o.contours.iter()).all(|(a, b)| a.len() == b.len() && a.iter().zip(b.iter()).all(|(p, q)| p.on == q.on));
+                if !same_shape {
+                    cx.violation("outline-structure", "simple-structure-changed", gw("contour structure or on-curve flags changed".into(), vec![("observed", J::s(format!("{:?}", o).chars().take(1500).collect::<String>()))]));
+                    continue;
+                }
+                let mut worst = 0.0f64;
+                for (i, (p, q)) in s.points().zip(o.points()).enumerate() {
+                    let ex = p.x as f64 + total[i].0;
+                    let ey = p.y as f64 + total[i].1;
+                    let err = (q.x as f64 - ex).abs().max((q.y as f64 - ey).abs());
+                    worst = worst.max(err);
+                    if all_zero_scalars {
+                        if q.x != p.x || q.y != p.y {
+                            cx.violation("default-identity", "simple-point-moved-without-applicable-region", gw(format!("point {}: source ({}, {}) became ({}, {}) although no region applies", i, p.x, p.y, q.x, q.y), vec![]));
+                            break;
+                        }
+                    } else if err > tol_scalar() {
+                        cx.violation(
+                            "point",
+                            &format!("simple-point:{}", cause),
+                            gw(
+                                format!("point {}: default ({}, {}) expected ({:.4}, {:.4}) observed ({}, {})", i, p.x, p.y, ex, ey, q.x, q.y),
+                                vec![("expected_deltas", J::A(total.iter().take(40).map(|d| J::s(format!("({:.3}, {:.3})", d.0, d.1))).collect()))],
+                            ),
+                        );
+                        break;
+                    }
+                }
+                if applied {
+                    cx.class("glyph:simple-varied");
+                    if worst > 0.5 + 1e-2 {
+                        cx.class("info:point-error-above-half-unit");
+                    }
+                    if total[..np].iter().any(|d| d.0 != 0.0 || d.1 != 0.0) {
+                        nontrivial = true;
+                    }
+                }
+            }
+            (Glyph::Composite(c), Glyph::Composite(o)) => {
+                let same = c.components.len() == o.components.len()
+                    && c.components.iter().zip(o.components.iter()).all(|(a, b)| a.gid == b.gid && a.scale == b.scale && a.extra_flags == b.extra_flags && matches!((a.args, b.args), (Args::XY(..), Args::XY(..)) | (Args::Points(..), Args::Points(..))));
+                if !same {
+                    cx.violation("outline-structure", "composite-structure-changed", gw("component list, glyph ids, transforms or flags changed".into(), vec![("observed", J::s(format!("{:?}", o)))]));
+                    continue;
+                }
+                for (k, (a, b)) in c.components.iter().zip(o.components.iter()).enumerate() {
+                    match (a.args, b.args) {
+                        (Args::XY(x, y), Args::XY(ox, oy)) => {
+                            let ex = x as f64 + total[k].0;
+                            let ey = y as f64 + total[k].1;
+                            if all_zero_scalars {
+                                if (ox, oy) != (x, y) {
+                                    cx.violation("default-identity", "composite-offset-moved-without-applicable-region", gw(format!("component {}: offset ({}, {}) became ({}, {})", k, x, y, ox, oy), vec![]));
+                                }
+                            } else if (ox as f64 - ex).abs() > tol_scalar() || (oy as f64 - ey).abs() > tol_scalar() {
+                                cx.violation("composite-offset", if invalid_here { "composite-offset:invalid-region" } else { "composite-offset" }, gw(format!("component {}: default offset ({}, {}) expected ({:.4}, {:.4}) observed ({}, {})", k, x, y, ex, ey, ox, oy), vec![]));
+                            } else if total[k].0 != 0.0 || total[k].1 != 0.0 {
+                                cx.class("composite:offset-varied");
+                                nontrivial = true;
+                            }
+                        }
+                        (Args::Points(p, q), Args::Points(op, oq)) => {
+                            if (p, q) != (op, oq) {
+                                cx.violation("composite-offset", "point-matching-args-changed", gw(format!("component {}: point-matching arguments ({}, {}) became ({}, {})", k, p, q, op, oq), vec![]));
+                            } else if total[k].0 != 0.0 || total[k].1 != 0.0 {
+                                cx.class("composite:point-matching-args-untouched");
+                            }
+                        }
+                        _ => {}
+                    }
+                }
+            }
+            (_, o) => {
+                cx.violation("outline-structure", "glyph-kind-changed", gw(format!("glyph kind changed: observed {:?}", o).chars().take(600).collect(), vec![]));
+                continue;
+            }
+        }
+        // ---- advance width
+        let (adv0, lsb0) = vf.metrics[gid];
+        let (oadv, olsb) = om[gid];
+        let d1 = total[np].0;
+        let d2 = total[np + 1].0;
+        let phantom_adv = adv0 as f64 + d2 - d1;
+        let (exp_adv, adv_src, adv_tol) = match &vf.hvar {
+            Some(h) => match model::hvar_advance_delta(h, gid, coords) {
+                Some(d) => (adv0 as f64 + d, "hvar", tol_scalar()),
+                None => {
+                    cx.class("not-judged:hvar-index-outside-store");
+                    continue;
+                }
+            },
+            None => (phantom_adv, "phantom", tol_derived()),
+        };
+        if sub.generated && sub.cff.is_none() && vf.hvar.is_some() && (exp_adv - phantom_adv).abs() > 1e-6 {
+            cx.inconclusive("generator:hvar-gvar-inconsistent");
+            return false;
+        }
+        let exp_adv_c = exp_adv.clamp(0.0, 65535.0);
+        if exp_adv_c != exp_adv {
+            cx.class("advance:clamped-at-zero");
+        }
+        // identity is demanded only where nothing that determines the advance moves: with phantom
+        // points, pp1 and pp2 are rounded separately even when they move by the same amount
+        let adv_moves = (exp_adv - adv0 as f64).abs() > 0.0 || (adv_src == "phantom" && (d1 != 0.0 || d2 != 0.0));
+        if !adv_moves {
+            if oadv != adv0 {
+                cx.violation("default-identity", &format!("advance-changed-without-delta:{}", adv_src), gw(format!("advance {} became {} although the model's advance delta is zero", adv0, oadv), vec![]));
+            }
+        } else if (oadv as f64 - exp_adv_c).abs() > adv_tol {
+            cx.violation("advance", &format!("advance:{}", adv_src), gw(format!("advance: default {} expected {:.4} observed {} (pp1 dx {:.4}, pp2 dx {:.4})", adv0, exp_adv, oadv, d1, d2), vec![]));
+        } else {
+            cx.class(if adv_src == "hvar" { "advance:hvar" } else { "advance:phantom-points" });
+            nontrivial = true;
+        }
+        // ---- left side bearing
+        let hv_lsb = match &vf.hvar {
+            Some(h) => match model::hvar_lsb_delta(h, gid, coords) {
+                Some(d) => d,
+                None => {
+                    cx.class("not-judged:hvar-index-outside-store");
+                    continue;
+                }
+            },
+            None => None,
+        };
+        let mut transformed = false;
+        let mut unsupported = false;
+        let pts = model::varied_points(vf, gid, coords, 0, &mut transformed, &mut unsupported);
+        let depth = model::composite_depth(&vf.glyphs, gid, 0);
+        let xmin_e = pts.iter().map(|p| p.0).fold(f64::INFINITY, f64::min);
+        let xmin_e = if xmin_e.is_finite() { xmin_e } else { 0.0 };
+        // default master: xMin as stored = exact default xMin
+        let mut t0 = false;
+        let mut u0 = false;
+        let zero_coords = vec![0i16; na];
+        let _ = (&mut t0, &mut u0, &zero_coords);
+        let pp1_e = {
+            // pp1 = xMin(default) - lsb, then varied by its delta
+            let xmin0 = match glyph {
+                Glyph::Empty => 0.0,
+                Glyph::Simple(s) => s.bbox().x_min as f64,
+                Glyph::Composite(_) => default_bbox(&vf.glyphs, gid, 0).map_or(0.0, |b| b.0.floor()),
+            };
+            xmin0 - lsb0 as f64 + d1
+        };
+        let phantom_lsb = xmin_e - pp1_e;
+        match hv_lsb {
+            Some(d) => {
+                let e = lsb0 as f64 + d;
+                if sub.generated && sub.cff.is_none() && !unsupported && (e - phantom_lsb).abs() > 1e-6 {
+                    cx.inconclusive("generator:hvar-lsb-inconsistent");
+                    return false;
+                }
+                if (olsb as f64 - e).abs() > tol_scalar() {
+                    cx.violation("lsb", "lsb:hvar-map", gw(format!("lsb: default {} expected {:.4} (HVAR lsb mapping) observed {}", lsb0, e, olsb), vec![]));
+                } else if d != 0.0 {
+                    cx.class("lsb:hvar-map");
+                    nontrivial = true;
+                } else if olsb != lsb0 {
+                    cx.violation("default-identity", "lsb-changed-without-delta:hvar-map", gw(format!("lsb {} became {} although the HVAR lsb delta is zero", lsb0, olsb), vec![]));
+                }
+            }
+            None => {
+                if unsupported {
+                    cx.class("not-judged:lsb-of-point-matching-composite");
+                } else if transformed && matches!(glyph, Glyph::Composite(_)) {
+                    // the bounding box of a transformed component is rounding- and engine-dependent:
+                    // only the identity where nothing varies is judged
+                    if !gid_moves(vf, gid, coords) {
+                        if (olsb as i32 - lsb0 as i32).abs() == 1 {
+                            // one unit: the rounding convention of the stored bounding box of a
+                            // scaled component (floor / round, f32 / exact) decides this; not judged
+                            cx.class("not-judged:lsb-of-transformed-composite-off-by-one");
+                        } else if olsb != lsb0 {
+                            let sig = if has_skewed_component(&vf.glyphs, gid, 0) { "lsb-changed-without-delta:rotated-or-skewed-component" } else { "lsb-changed-without-delta:scaled-component" };
+                            cx.violation("default-identity", sig, gw(format!("lsb {} became {} although nothing in the glyph varies here", lsb0, olsb), vec![("glyphs", J::s(format!("{:?}", vf.glyphs).chars().take(3000).collect::<String>()))]));
+                        } else {
+                            cx.class("lsb:transformed-composite-identity");
+                        }
+                    } else {
+                        cx.class("not-judged:lsb-of-transformed-composite");
+                    }
+                } else {
+                    let tol = tol_derived() + 0.5 * depth as f64;
+                    let moved = gid_moves(vf, gid, coords);
+                    if !moved {
+                        if olsb != lsb0 {
+                            cx.violation("default-identity", if depth > 0 { "lsb-changed-without-delta:composite" } else { "lsb-changed-without-delta" }, gw(format!("lsb {} became {} although nothing in the glyph varies here", lsb0, olsb), vec![]));
+                        }
+                    } else if (olsb as f64 - phantom_lsb).abs() > tol {
+                        cx.violation("lsb", if depth > 0 { "lsb:phantom-composite" } else { "lsb:phantom" }, gw(format!("lsb: default {} expected xMin' - pp1' = {:.4} - {:.4} = {:.4} observed {}", lsb0, xmin_e, pp1_e, phantom_lsb, olsb), vec![]));
+                    } else {
+                        cx.class(if depth > 0 { "lsb:phantom-composite" } else { "lsb:phantom-points" });
+                        if (phantom_lsb - lsb0 as f64).abs() > 0.0 {
+                            nontrivial = true;
+                        }
+                    }
+                }
+            }
+        }
+        // ---- event classes of what was exercised in this glyph
+        if let Some(d) = &gd {
+            if applied {
+                for c in &d.iup_classes {
+                    cx.class(c);
+                }
+                if d.near_edge {
+                    cx.class("coords:within-1-of-region-edge-or-peak");
+                }
+                for c in &d.cases {
+                    cx.class(match c {
+                        model::AxisCase::Invalid => "axis:invalid-region-ignored",
+                        model::AxisCase::PeakZero => "axis:peak-zero-ignored",
+                        model::AxisCase::OutOfRange => "axis:out-of-range",
+                        model::AxisCase::AtPeak => "axis:at-peak",
+                        model::AxisCase::Rising => "axis:rising",
+                        model::AxisCase::Falling => "axis:falling",
+                    });
+                }
+                if let (Some(enc), Some(gv)) = (sub.enc, gv) {
+                    for (ti, _t) in gv.tuples.iter().enumerate() {
+                        if d.scalars[ti] != 0.0 {
+                            if let Some(cl) = enc.get(gid).and_then(|g| g.get(ti)) {
+                                for c in cl {
+                                    cx.class(c);
+                                }
+                            }
+                        }
+                    }
+                }
+                if let Some(gv) = gv {
+                    for (ti, t) in gv.tuples.iter().enumerate() {
+                        if d.scalars[ti] == 0.0 {
+                            continue;
+                        }
+                        if !sub.generated {
+                            cx.class(if t.shared_peak.is_some() { "peak:shared" } else { "peak:embedded" });
+                            cx.class(if t.inter.is_some() { "region:intermediate" } else { "region:implied" });
+                            cx.class(if t.points.is_some() { "points:private" } else { "points:shared" });
+                        }
+                        if let Some(PointSel::List(v)) = t.points.as_ref().or(gv.shared_points.as_ref()) {
+                            if v.iter().any(|&p| p as usize >= np) {
+                                cx.class("points:explicit-phantom");
+                            }
+                            if v.len() == np + 4 {
+                                cx.class("points:explicit-full-list");
+                            }
+                        }
+                    }
+                    if d.scalars.iter().filter(|&&s| s != 0.0).count() >= 2 {
+                        cx.class("regions:several-applicable");
+                    }
+                    if d.scalars.iter().any(|&s| s != 0.0 && s != 1.0) {
+                        cx.class("scalar:fractional");
+                    }
+                }
+            }
+        }
+        match glyph {
+            Glyph::Empty => {
+                if applied {
+                    cx.class("glyph:empty-varied");
+                }
+            }
+            Glyph::Composite(_) => {
+                if applied {
+                    cx.class("glyph:composite-varied");
+                }
+            }
+            _ => {}
+        }
+    }
+    if !any_applied {
+        cx.class("instance:no-region-applies");
+    }
+    // ---- hhea bookkeeping that follows from the metrics (cheap structural check)
+    if let Some(hh) = of.gets("hhea").and_then(sfnt::tables::Hhea::read) {
+        let max_adv = om.iter().map(|m| m.0).max().unwrap_or(0);
+        if hh.advance_width_max != max_adv {
+            cx.class("info:advanceWidthMax-differs-from-hmtx-maximum");
+        }
+    }
+    // ---- CFF2 CharStrings
+    if let Some(c) = sub.cff {
+        nontrivial |= judge_cff2(cx, sub, c, &of, coords, user, tuple);
+    }
+    // ---- MVAR-controlled metrics
+    for &(tag, table, off, signed, minv) in MVAR_TARGETS {
+        let base = match vf.base.get(tag) {
+            Some(b) => *b,
+            None => continue,
+        };
+        let od = match of.gets(table) {
+            Some(d) => d,
+            None => {
+                if table == "vhea" {
+                    cx.class("not-judged:vhea-absent-in-output");
+                } else {
+                    cx.violation("mvar", &format!("table-missing:{}", table), witness(sub, user, tuple, format!("output has no '{}' table", table), vec![]));
+                }
+                continue;
+            }
+        };
+        if table == "OS/2" && be16(od, 0).map_or(true, |v| v < minv) {
+            cx.violation("mvar", "os2-version-changed", witness(sub, user, tuple, "OS/2 version of the output is lower than the source's".into(), vec![]));
+            continue;
+        }
+        let obs = match be16(od, off) {
+            Some(v) => {
+                if signed {
+                    v as i16 as i32
+                } else {
+                    v as i32
+                }
+            }
+            None => {
+                cx.violation("mvar", &format!("table-short:{}", table), witness(sub, user, tuple, format!("output '{}' table too short for offset {}", table, off), vec![]));
+                continue;
+            }
+        };
+        let delta = vf.mvar.as_ref().and_then(|m| model::mvar_delta(m, tag, coords));
+        match delta {
+            Some(d) if d != 0.0 => {
+                let e = (base as f64 + d).clamp(if signed { -32768.0 } else { 0.0 }, if signed { 32767.0 } else { 65535.0 });
+                if (obs as f64 - e).abs() > tol_scalar() {
+                    cx.violation("mvar", &format!("mvar:{}", tag), witness(sub, user, tuple, format!("{}@{} ('{}'): default {} expected {:.4} observed {}", table, off, tag, base, e, obs), vec![("mvar", J::s(format!("{:?}", vf.mvar).chars().take(2000).collect::<String>()))]));
+                } else {
+                    cx.class("mvar:tag-applied");
+                    cx.class(&format!("mvar:{}", table));
+                    nontrivial = true;
+                }
+            }
+            _ => {
+                if obs != base {
+                    cx.violation("mvar", &format!("mvar-untouched-field-changed:{}", tag), witness(sub, user, tuple, format!("{}@{} ('{}'): {} became {} although no MVAR delta applies", table, off, tag, base, obs), vec![("mvar", J::s(format!("{:?}", vf.mvar).chars().take(2000).collect::<String>()))]));
+                }
+            }
+        }
+    }
+    if vf.avar.is_some() {
+        cx.class("avar-present");
+    }
+    if na > 4 {
+        cx.class("axes:more-than-4");
+    }
+    if let Some(h) = &vf.hvar {
+        cx.class(if h.adv_map.is_some() { "hvar:with-advance-map" } else { "hvar:implicit-glyph-index" });
+        if let Some(m) = &h.adv_map {
+            if m.entries.len() < n {
+                cx.class("hvar:short-map-last-entry-reused");
+            }
+            cx.class(&format!("hvar:map-entry-size-{}", m.entry_size));
+            if m.format == 1 {
+                cx.class("hvar:map-format-1");
+            }
+        }
+        if h.lsb_map.is_some() {
+            cx.class("hvar:with-lsb-map");
+        }
+        for d in &h.ivs.data {
+            if d.long {
+                cx.class("ivs:long-words");
+            }
+            if d.word_count > 0 && (d.word_count as usize) < d.region_idx.len() {
+                cx.class("ivs:mixed-word-and-short-columns");
+            }
+        }
+    }
+    if user.iter().zip(vf.axes.iter()).all(|(u, a)| *u == a.def) {
+        cx.class("coords:default-tuple");
+    }
+    nontrivial
+}
+
+fn judge_cff2(cx: &mut Ctx, sub: &Subject<'_>, c: &cff2::Cff2, of: &sfnt::Font, coords: &[i16], user: &[i32], tuple: &[i16]) -> bool {
+    let table = match of.gets("CFF2") {
+        Some(t) => t,
+        None => {
+            cx.violation("output", "cff2-table-missing", witness(sub, user, tuple, "instance of a CFF2 font has no CFF2 table".into(), vec![]));
+            return false;
+        }
+    };
+    let out = match cff2::read_cff2(table) {
+        Some(o) => o,
+        None => {
+            cx.violation("output", "cff2-unreadable", witness(sub, user, tuple, "CFF2 table of the instance is unreadable".into(), vec![("cff2", J::hex(&table[..table.len().min(600)]))]));
+            return false;
+        }
+    };
+    if out.has_vstore {
+        cx.violation("static", "cff2-vstore-left", witness(sub, user, tuple, "CFF2 table of the instance still has a VariationStore".into(), vec![]));
+    }
+    if out.charstrings.len() != c.glyphs.len() {
+        cx.violation("output", "cff2-glyph-count", witness(sub, user, tuple, format!("{} CharStrings, expected {}", out.charstrings.len(), c.glyphs.len()), vec![]));
+        return false;
+    }
+    let mut nontrivial = false;
+    for (gid, g) in c.glyphs.iter().enumerate() {
+        let gw = |what: String, extra: Vec<(&str, J)>| -> J {
+            let mut e = vec![("glyph_id", J::U(gid as u64)), ("charstring_ast", J::s(format!("{:?}", g).chars().take(3000).collect::<String>())), ("regions", J::s(format!("{:?} data {:?} private vsindex {:?}", c.regions, c.data_regions, c.private_vsindex))), ("output_charstring", J::hex(&out.charstrings[gid]))];
+            e.extend(extra);
+            witness(sub, user, tuple, what, e)
+        };
+        // the output must be free of blend / vsindex / subroutine calls: k_of refuses every blend
+        let og = match cff2::read_charstring(&out.charstrings[gid], 0, &|_| None) {
+            Some(o) if o.vsindex.is_none() => o,
+            _ => {
+                cx.violation("static", "cff2-charstring-not-static", gw("output CharString is unreadable or still contains vsindex/blend/subroutine operators".into(), vec![]));
+                continue;
+            }
+        };
+        let exp = match cff2::expected_ops(c, g, coords) {
+            Some(e) => e,
+            None => {
+                cx.class("not-judged:cff2-vsindex-outside-store");
+                continue;
+            }
+        };
+        if exp.len() != og.ops.len() || exp.iter().zip(og.ops.iter()).any(|(e, o)| e.0 != o.op || e.1.len() != o.args.len() || e.2 != o.mask) {
+            cx.violation("outline-structure", "cff2-operators-changed", gw("operators, operand counts or hint masks of the CharString changed".into(), vec![("observed", J::s(format!("{:?}", og).chars().take(2000).collect::<String>()))]));
+            continue;
+        }
+        let mut worst = 0.0f64;
+        'ops: for (k, (e, o)) in exp.iter().zip(og.ops.iter()).enumerate() {
+            for (j, (ev, ov)) in e.1.iter().zip(o.args.iter()).enumerate() {
+                let obs = ov.def as f64 / 65536.0;
+                let err = (obs - ev).abs();
+                worst = worst.max(err);
+                if !e.3 {
+                    // no region contributes to this operator: the default values must come out
+                    if err > 0.0 {
+                        let sig = if err <= 1.0 / 32768.0 { "cff2-operand-changed-without-delta:last-16.16-bit" } else { "cff2-operand-changed-without-delta" };
+                        cx.violation("default-identity", sig, gw(format!("operator {} (#{}) operand {}: default {} (16.16 raw {}) observed {} (raw {})", e.0, k, j, ev, (ev * 65536.0) as i64, obs, ov.def), vec![]));
+                        break 'ops;
+                    }
+                } else if err > tol_scalar() {
+                    cx.violation("cff2-blend", "cff2-blended-operand", gw(format!("operator {} (#{}) operand {}: expected {:.5} observed {:.5}", e.0, k, j, ev, obs), vec![]));
+                    break 'ops;
+                }
+            }
+            if e.3 {
+                cx.class("cff2:blend-applied");
+                nontrivial = true;
+            }
+        }
+        if worst > 0.01 && worst <= tol_scalar() {
+            cx.class("info:cff2-operand-error-above-0.01");
+        }
+        if g.vsindex.is_some() {
+            cx.class("cff2:glyph-vsindex");
+        }
+    }
+    nontrivial
+}
+
+/// Is there a component with a 2x2 transform that has off-diagonal terms below this glyph?
+fn has_skewed_component(glyphs: &[Glyph], gid: usize, depth: usize) -> bool {
+    if depth > 6 {
+        return true;
+    }
+    match glyphs.get(gid) {
+        Some(Glyph::Composite(c)) => c.components.iter().any(|k| matches!(k.scale, crate::sfnt::glyf::Scale::Matrix(_, b, c2, _) if b != 0 || c2 != 0) || has_skewed_component(glyphs, k.gid as usize, depth + 1)),
+        _ => false,
+    }
+}
+
+/// Does anything that determines the glyph's lsb (its points, its components, pp1) vary here?
+fn gid_moves(vf: &VFont, gid: usize, coords: &[i16]) -> bool {
+    fn rec(vf: &VFont, gid: usize, coords: &[i16], depth: usize) -> bool {
+        if depth > 6 {
+            return true;
+        }
+        let glyph = match vf.glyphs.get(gid) {
+            Some(g) => g,
+            None => return true,
+        };
+        let np = glyph_num_points(glyph);
+        if let Some(gv) = vf.gvar.get(gid).and_then(|g| g.as_ref()) {
+            match model::glyph_deltas(glyph, gv, coords) {
+                Some(d) => {
+                    if d.total[..np].iter().any(|t| t.0 != 0.0 || t.1 != 0.0) || (depth == 0 && d.total[np].0 != 0.0) {
+                        return true;
+                    }
+                }
+                None => return true,
+            }
+        }
+        if let Glyph::Composite(c) = glyph {
+            return c.components.iter().any(|k| rec(vf, k.gid as usize, coords, depth + 1));
+        }
+        false
+    }
+    rec(vf, gid, coords, 0)
+}
+
+fn glyphs_equal(a: &[Glyph], b: &[Glyph]) -> bool {
+    a.len() == b.len()
+        && a.iter().zip(b.iter()).all(|(x, y)| match (x, y) {
+            (Glyph::Composite(c), Glyph::Composite(d)) => {
+                c.components.len() == d.components.len() && c.components.iter().zip(d.components.iter()).all(|(p, q)| p.gid == q.gid && p.args == q.args && p.scale == q.scale && p.extra_flags == q.extra_flags)
+            }
+            (x, y) => x == y,
+        })
+}
+
+impl C12 {
+    fn run_instances(&mut self, cx: &mut Ctx, rng: &mut Rng, sub: &Subject<'_>, count: usize) -> bool {
+        let fd = match ReadScope::new(sub.bytes).read::<FontData<'_>>() {
+            Ok(fd) => fd,
+            Err(e) => {
+                cx.inconclusive(&format!("source-font-rejected:{:?}", e));
+                return false;
+            }
+        };
+        let provider = match fd.table_provider(0) {
+            Ok(p) => p,
+            Err(_) => {
+                cx.inconclusive("source-font-rejected:table-provider");
+                return false;
+            }
+        };
+        let mut nontrivial = false;
+        for k in 0..count {
+            let strategy = if k == 0 { 0 } else { 1 + rng.below(5) };
+            let user = gen_user_tuple(rng, sub.vf, strategy, cx);
+            let fixed: Vec<Fixed> = user.iter().map(|&u| Fixed::from_raw(u)).collect();
+            let res = cx.guard("variations::instance", sub.bytes.len(), || variations::instance(&provider, &fixed));
+            cx.evals += 1;
+            match res {
+                None => return nontrivial, // panic recorded
+                Some(Err(e)) => {
+                    if cx.verbose {
+                        eprintln!("instance error {:?} on {} user {:?}", e, sub.label, user);
+                    }
+                    let es: String = format!("{:?}", e).chars().take(40).collect();
+                    if sub.generated {
+                        // a generated font is well-formed by construction and was read back by the
+                        // independent reader: refusing it means the variation data was not evaluated
+                        cx.violation(
+                            "instance-refused",
+                            &format!("well-formed-font-refused:{}", normalise_digits(&es)),
+                            witness(sub, &user, &[], format!("variations::instance returned Err({}) for a well-formed generated font", es), vec![("ast", J::s(format!("{:?}", sub.vf).chars().take(4000).collect::<String>()))]),
+                        );
+                    } else {
+                        cx.inconclusive(&format!("instance-error:{}", es));
+                    }
+                }
+                Some(Ok((out, tuple))) => {
+                    let t: Vec<i16> = tuple.iter().map(|v| v.raw_value()).collect();
+                    nontrivial |= judge(cx, sub, &user, &out, &t);
+                }
+            }
+        }
+        nontrivial
+    }
+
+    fn case_generated(&mut self, cx: &mut Ctx, rng: &mut Rng) {
+        let vf = gen_vfont(rng, cx.quick());
+        let built = build_font(&vf, rng);
+        // generator self-check: the independent reader must read back what the AST says
+        match model::read_vfont(&built.bytes) {
+            Some(back) => {
+                let what = if back.axes != vf.axes {
+                    Some("fvar")
+                } else if back.avar != vf.avar {
+                    Some("avar")
+                } else if !glyphs_equal(&back.glyphs, &vf.glyphs) {
+                    Some("glyf")
+                } else if back.metrics != vf.metrics {
+                    Some("hmtx")
+                } else if back.gvar != vf.gvar || back.shared_tuples != vf.shared_tuples {
+                    Some("gvar")
+                } else if back.hvar != vf.hvar {
+                    Some("HVAR")
+                } else if back.mvar != vf.mvar {
+                    Some("MVAR")
+                } else if back.base != vf.base {
+                    Some("static-metrics")
+                } else {
+                    None
+                };
+                if let Some(w) = what {
+                    if cx.verbose {
+                        eprintln!("roundtrip mismatch in {}:\n ast  {:?}\n back {:?}", w, vf, back);
+                    }
+                    cx.inconclusive(&format!("generator:roundtrip-{}", w));
+                    return;
+                }
+            }
+            None => {
+                cx.inconclusive("generator:own-font-unreadable");
+                return;
+            }
+        }
+        if cx.verbose && std::env::var("C12_DUMP").is_ok() {
+            eprintln!("AST {:#?}", vf);
+        }
+        let sub = Subject { vf: &vf, bytes: &built.bytes, label: "generated", enc: Some(&built.gvar_classes), generated: true, cff: None };
+        let count = if cx.quick() { 6 } else { 10 };
+        let nt = self.run_instances(cx, rng, &sub, count);
+        if vf.has_invalid_region {
+            cx.class("font:has-invalid-region");
+        }
+        if vf.mvar.is_some() {
+            cx.class("font:mvar");
+        }
+        if nt {
+            cx.nontrivial(hash_bytes(&built.bytes));
+        }
+        if cx.want_sample() {
+            cx.sample(J::obj(vec![
+                ("axes", J::s(format!("{:?}", vf.axes))),
+                ("glyphs", J::U(vf.glyphs.len() as u64)),
+                ("gvar", J::s(format!("{:?}", vf.gvar).chars().take(500).collect::<String>())),
+                ("hvar", J::Bool(vf.hvar.is_some())),
+                ("mvar", J::s(format!("{:?}", vf.mvar.as_ref().map(|m| &m.records)))),
+                ("font_len", J::U(built.bytes.len() as u64)),
+            ]));
+        }
+    }
+
+    fn case_generated_cff2(&mut self, cx: &mut Ctx, rng: &mut Rng) {
+        let mut vf = VFont::default();
+        vf.axes = gen_axes(rng);
+        let na = vf.axes.len();
+        if rng.chance(1, 3) {
+            vf.avar = Some((0..na).map(|_| gen_segmap(rng)).collect());
+        }
+        let n = 1 + rng.below(6);
+        vf.glyphs = vec![Glyph::Empty; n];
+        vf.gvar = vec![None; n];
+        vf.metrics = (0..n).map(|_| (rng.below(2000) as u16, rng.range(-100, 300) as i16)).collect();
+        vf.num_h_metrics = if rng.chance(1, 3) { 1 + rng.below(n) } else { n };
+        for g in vf.num_h_metrics..n {
+            vf.metrics[g].0 = vf.metrics[vf.num_h_metrics - 1].0;
+        }
+        vf.os2_version = *rng.pick(&[0u16, 2, 4, 5]);
+        vf.with_vhea = rng.chance(1, 5);
+        for &(tag, table, _off, signed, minv) in MVAR_TARGETS {
+            let exists = match table {
+                "OS/2" => vf.os2_version >= minv,
+                "vhea" => vf.with_vhea,
+                _ => true,
+            };
+            if exists {
+                vf.base.insert(tag.to_string(), if signed { rng.range(-1500, 1500) as i32 } else { rng.range(0, 3000) as i32 });
+            }
+        }
+        if rng.chance(1, 2) {
+            vf.hvar = Some(cff2::gen_free_hvar(rng, na, n));
+        }
+        if rng.chance(1, 3) {
+            let m = gen_mvar(rng, &vf);
+            vf.mvar = Some(m);
+        }
+        let c = cff2::gen_cff2(rng, na, n);
+        let mut cls = Vec::new();
+        let table = cff2::write_cff2(&c, na, rng, &mut cls);
+        let built = build_font_with(&vf, rng, Some(table));
+        // generator self-check
+        let ok = (|| -> Option<bool> {
+            let f = sfnt::Font::parse(&built.bytes)?;
+            let r = cff2::read_cff2(f.gets("CFF2")?)?;
+            if r.regions != c.regions || r.data_regions != c.data_regions || r.private_vsindex != c.private_vsindex || r.charstrings.len() != n || !r.has_vstore || r.fd_count != 1 {
+                return Some(false);
+            }
+            for (g, cs) in c.glyphs.iter().zip(r.charstrings.iter()) {
+                let back = cff2::read_charstring(cs, c.private_vsindex.unwrap_or(0), &|v| c.data_regions.get(v as usize).map(|x| x.len()))?;
+                if !cff2::same_glyph(g, &back) {
+                    return Some(false);
+                }
+            }
+            let hv = match f.gets("HVAR") {
+                Some(d) => Some(model::read_hvar(d)?),
+                None => None,
+            };
+            let mv = match f.gets("MVAR") {
+                Some(d) => Some(model::read_mvar(d)?),
+                None => None,
+            };
+            Some(hv == vf.hvar && mv == vf.mvar && model::read_fvar(f.gets("fvar")?)? == vf.axes && model::read_metrics(&f, n)? == vf.metrics && model::read_base_metrics(&f) == vf.base)
+        })();
+        if ok != Some(true) {
+            if cx.verbose {
+                eprintln!("cff2 roundtrip failed: {:?}\n{:?}", ok, c);
+            }
+            cx.inconclusive("generator:roundtrip-cff2");
+            return;
+        }
+        if cx.verbose && std::env::var("C12_DUMP").is_ok() {
+            eprintln!("AST {:#?}\n{:#?}", vf, c);
+        }
+        let sub = Subject { vf: &vf, bytes: &built.bytes, label: "generated-cff2", enc: None, generated: true, cff: Some(&c) };
+        let nt = self.run_instances(cx, rng, &sub, if cx.quick() { 6 } else { 10 });
+        for k in cls {
+            cx.class(k);
+        }
+        cx.class("font:generated-cff2");
+        if nt {
+            cx.nontrivial(hash_bytes(&built.bytes));
+        }
+    }
+
+    fn case_real(&mut self, cx: &mut Ctx, rng: &mut Rng) {
+        if self.real.is_empty() {
+            cx.inconclusive("no-real-variable-fonts");
+            return;
+        }
+        let idx = rng.below(self.real.len());
+        let (name, bytes, vf, cff2, cff) = {
+            let r = &self.real[idx];
+            (r.name.clone(), r.bytes.clone(), r.vf.clone(), r.cff2, r.cff.clone())
+        };
+        if cff2 {
+            self.case_cff2(cx, rng, &name, &bytes);
+        }
+        if let Some(vf) = vf {
+            let sub = Subject { vf: &vf, bytes: &bytes, label: &name, enc: None, generated: false, cff: cff.as_ref() };
+            let nt = self.run_instances(cx, rng, &sub, 4);
+            cx.class(if cff.is_some() { "real-font:cff2-model" } else { "real-font:truetype" });
+            if nt {
+                cx.nontrivial(mix(hash_str(&name), rng.u64()));
+            }
+        }
+    }
+
+    /// CFF2 fixture: static-ness and default identity of the metrics (the blend arithmetic itself
+    /// is not modelled here).
+    fn case_cff2(&mut self, cx: &mut Ctx, _rng: &mut Rng, name: &str, bytes: &[u8]) {
+        let src = match sfnt::Font::parse(bytes) {
+            Some(f) => f,
+            None => return,
+        };
+        let axes = match src.gets("fvar").and_then(model::read_fvar) {
+            Some(a) => a,
+            None => return,
+        };
+        let fd = match ReadScope::new(bytes).read::<FontData<'_>>() {
+            Ok(fd) => fd,
+            Err(_) => return,
+        };
+        let provider = match fd.table_provider(0) {
+            Ok(p) => p,
+            Err(_) => return,
+        };
+        let user: Vec<Fixed> = axes.iter().map(|a| Fixed::from_raw(a.def)).collect();
+        let res = cx.guard("variations::instance(cff2)", bytes.len(), || variations::instance(&provider, &user));
+        cx.evals += 1;
+        let (out, _tuple) = match res {
+            Some(Ok(r)) => r,
+            Some(Err(e)) => {
+                cx.inconclusive(&format!("instance-error-cff2:{:?}", e));
+                return;
+            }
+            None => return,
+        };
+        let of = match sfnt::Font::parse(&out) {
+            Some(f) => f,
+            None => {
+                cx.violation("static", "output-not-sfnt", J::s(format!("{}: CFF2 instance is not a readable sfnt", name)));
+                return;
+            }
+        };
+        for t in VAR_TAGS {
+            if of.gets(t).is_some() {
+                cx.violation("static", &format!("variation-table-left:{}", t), J::s(format!("{}: CFF2 instance still has '{}'", name, t)));
+            }
+        }
+        let n = src.gets("maxp").and_then(sfnt::tables::maxp_num_glyphs).unwrap_or(0) as usize;
+        let hm = |f: &sfnt::Font| -> Option<Vec<(u16, i16)>> {
+            let hh = sfnt::tables::Hhea::read(f.gets("hhea")?)?;
+            sfnt::tables::read_hmtx(f.gets("hmtx")?, n, hh.num_h_metrics as usize)
+        };
+        match (hm(&src), hm(&of)) {
+            (Some(a), Some(b)) => {
+                if a != b {
+                    cx.violation("default-identity", "cff2-hmtx-changed-at-default", J::s(format!("{}: hmtx of the default instance differs from the source", name)));
+                }
+            }
+            _ => cx.violation("output", "hmtx-unreadable", J::s(format!("{}: hmtx unreadable", name))),
+        }
+        let base = model::read_base_metrics(&src);
+        let ob = model::read_base_metrics(&of);
+        for (k, v) in &base {
+            if k.starts_with('v') {
+                continue;
+            }
+            if ob.get(k) != Some(v) {
+                cx.violation("default-identity", "cff2-metric-changed-at-default", J::s(format!("{}: '{}' {} became {:?}", name, k, v, ob.get(k))));
+            }
+        }
+        cx.class("real-font:cff2-default-instance");
     }
 }
 
 impl Prop for C12 {
-    fn case(&mut self, cx: &mut Ctx, _rng: &mut Rng) {
-        cx.inconclusive("not-implemented");
+    fn case(&mut self, cx: &mut Ctx, rng: &mut Rng) {
+        let real = match cx.mode.as_str() {
+            "real" => true,
+            "gen" | "cff2" => false,
+            _ => rng.chance(1, 12),
+        };
+        let want_cff2 = match cx.mode.as_str() {
+            "cff2" => true,
+            "gen" | "real" => false,
+            _ => rng.chance(1, 5),
+        };
+        if real {
+            self.case_real(cx, rng);
+        } else if want_cff2 {
+            self.case_generated_cff2(cx, rng);
+        } else {
+            self.case_generated(cx, rng);
+        }
     }
 }
